@@ -359,6 +359,13 @@ def check_obligations(chk, spec):
                     chk.obligations[t] = res.get(t, (False, "not reported"))
                     if not chk.obligations[t][0]:
                         broken.append(t)
+                if chk.tier == "thorough":
+                    # independent re-check of the compiled module (and everything it imports) by the toolchain's leanchecker
+                    rc, o, e = vcheck.sh(["lake", "env", "leanchecker", mod], cwd=vcheck.LEAN, timeout=3000)
+                    name = "leanchecker:" + mod
+                    chk.obligations[name] = (rc == 0, [] if rc == 0 else (o + e)[-600:])
+                    if rc != 0:
+                        broken.append(name)
             else:
                 # the module does not compile: name the declarations Lean rejected (root causes); the other theorems of
                 # the module are not re-checked in this run (no .olean), which is recorded per obligation, but only the
